@@ -147,4 +147,36 @@ def sweep(ctx, n):
                     fails.append({"key": f"unit-scale:{cls}:{sk}", "desc": f"{what} changes with the length unit (scale {sk}, rel. err {err:.2g}" + (f", built with {via}" if via != "plain" else "") + ")",
                                   "replay": {"class": cls, "scale": s, "excitation_factor": e, "params_at_scale_1": {a: np.asarray(v).tolist() for a, v in kw.items()},
                                              "observers_at_scale_1": obs.tolist(), "rel_err": err, "J_pattern_equal": bool(jpat)}})
+    # proportionality to the excitation through the attribute views: after ANY assignment to magnetization / polarization — also one
+    # that ended in an exception because the user turned warnings into errors (|M| < 2000 A/m triggers a deprecation warning) — the
+    # fields are those of the excitation the object reports, i.e. those of a fresh body with that polarization
+    from oracles.sources import MAGNETS, make
+    with warnings.catch_warnings():
+        for cls in MAGNETS:
+            nps = np.random.default_rng(rng.randrange(2**31))
+            s0 = make(cls, nps)
+            ip = interior_points(cls, s0, nps, 1)
+            far = np.array([[3.0, 2.0, 4.0]]) * local_size(s0)
+            pts = far if ip is None else np.concatenate([far, np.asarray(ip)[:1]])
+            for attr, val in (("magnetization", nps.uniform(-1, 1, 3) * 500.0), ("polarization", nps.uniform(-1, 1, 3) * 1e-4),
+                              ("magnetization", nps.uniform(-1, 1, 3) * 1e5)):
+                warnings.simplefilter(rng.choice(["error", "ignore"]))
+                try:
+                    setattr(s0, attr, val)
+                    how = "assigned"
+                except Exception as e:  # noqa: BLE001
+                    how = f"assignment raised {type(e).__name__}"
+                warnings.simplefilter("ignore")
+                P, Mg = s0.polarization, s0.magnetization
+                done += 1
+                if P is None or Mg is None:
+                    continue
+                twin = s0.copy(polarization=np.array(P, dtype=float))
+                ok = np.allclose(np.asarray(P), magpy.mu_0 * np.asarray(Mg), rtol=1e-8, atol=0)
+                scale_ = float(np.max(np.abs(twin.getB(pts)))) + 1e-300
+                ok = ok and np.allclose(s0.getB(pts), twin.getB(pts), rtol=1e-12, atol=1e-12 * scale_) and np.allclose(s0.getH(pts), twin.getH(pts), rtol=1e-12, atol=1e-12 * scale_ / magpy.mu_0)
+                if not ok:
+                    fails.append({"key": f"excitation-scaling:{cls}:{attr}", "desc": f"{cls}: after `{attr} = {np.round(val, 6).tolist()}` ({how}) B / H are not those of the excitation the object reports "
+                                  f"(polarization {np.asarray(P).tolist()}, magnetization {np.asarray(Mg).tolist()})", "replay": {"class": cls, "attribute": attr, "value": np.asarray(val).tolist(), "how": how}})
+                    break
     return fails, {"c12_cases": done, "c12_worst_rel_err": {k: float(f"{v:.3g}") for k, v in worst.items()}}
